@@ -34,7 +34,7 @@ class C11(vlib.Check):
     gen_items = ["fprint_fold"]
     rule = ("all ordered pairs of bit fingerprints over lengths 1..4 (exhaustive: every subset pair x 5 operators x 3 forms) "
             "plus seeded pairs up to 2^32; count/float pairs with overlapping and disjoint supports; scalars 1..9; "
-            "batches of 1-6 with integer and dyadic weights, a third of them holding difference fingerprints with negative counts; mismatched lengths for the rejection path; add / mean of 256 - 131 100 operands sharing a position. Non-trivial: both "
+            "batches of 1-6 with integer and dyadic weights, a third of them holding difference fingerprints with negative counts; mismatched lengths for the rejection path; add / mean of 256 - 131 100 operands sharing a position; weight sums of 1 +- 1e-5..1e-6. Non-trivial: both "
             "operands non-empty and the operation succeeded; distinct by full case.")
     trusted_base = ["NumPy set routines (union1d, intersect1d, setdiff1d, setxor1d), compared on every run"]
     assumptions = ["float arithmetic is exact on the generated dyadic values (checked: results compared as exact rationals)"]
